@@ -28,7 +28,7 @@ ASSUMPTIONS = [
     "not generated",
 ]
 REQUIRED_MONITORS = ["chain:conditional-distribution", "layout:samples", "space-unroll:joint-state", "roll:restores", "history:calls",
-                     "history:rerun-equals-fresh"]
+                     "history:rerun-equals-fresh", "padding:vacuum-before-crop", "padding:get_crop_value-agrees"]
 
 NS = [[2], [3], [4], [2, 2], [1, 3], [2, 3]]
 
@@ -332,6 +332,114 @@ def run_case(case, rep, env):
         V("TDMProgram.run", "history-exception:" + type(e).__name__, "run after %s raised %s: %s" % (calls, type(e).__name__, str(e)[:120]))
 
 
+# ---------------------------------------------------------------------------------------------------------------------
+# vacuum_padding (tdm/utils.py): multi-loop single-band programs built from padded argument lists
+# ---------------------------------------------------------------------------------------------------------------------
+
+def gen_padding_case(rng):
+    delays = [list(x) for x in ([1], [1, 2], [2, 1], [1, 2, 3], [2, 3], [1, 3, 2])][int(rng.integers(6))]
+    L = int(rng.integers(3, 8))
+    S = [float(x) for x in rng.uniform(0.3, 0.9, L)]
+    if rng.random() < 0.2:
+        S[0] = 0.0
+    loops = {}
+    for i, d in enumerate(delays):
+        bs = [float(x) for x in rng.uniform(0.25, 1.3, L)]
+        r = rng.random()
+        if r < 0.45:
+            for j in range(min(L, int(rng.integers(1, d + 3)))):
+                bs[j] = 0.0
+        elif r < 0.55:
+            bs = [0.0] * L
+        elif r < 0.7:
+            bs[int(rng.integers(1, L))] = 0.0
+        loops[i] = {"Rgate": [float(x) for x in rng.uniform(-1, 1, L)], "BSgate": bs}
+    return {"mode": "padding", "delays": delays, "Sgate": S, "loops": loops}
+
+
+def run_padding_case(case, rep, env):
+    """The argument lists returned by vacuum_padding, run as a time-domain program on loops with the given delays (explicit
+    loop, one reference mode per pulse): the first `crop` pulses that reach the detector are vacuum (cropping them loses
+    nothing), all lists have one length and contain the user's values unchanged between zeros, the input is not modified, and
+    TDMProgram.get_delays() / get_crop_value() of that program agree with the delays and the crop value of the padding."""
+    sf, ops = env["sf"], env["ops"]
+    from strawberryfields.tdm.utils import vacuum_padding
+
+    V = lambda locus, kind, what: rep.violation(locus, kind, what, case)
+    delays = case["delays"]
+    loops = {int(k): v for k, v in case["loops"].items()}
+    args = {"Sgate": list(case["Sgate"]), "loops": {k: {"Rgate": list(v["Rgate"]), "BSgate": list(v["BSgate"])} for k, v in loops.items()}}
+    import copy
+
+    before = copy.deepcopy(args)
+    rep.case(["padding", delays, rnd(case["Sgate"], 5), rnd(case["loops"], 5)], True)
+    rep.monitor("padding:called")
+    try:
+        out = vacuum_padding(args, delays)
+    except Exception as e:
+        V("vacuum_padding", "exception:" + type(e).__name__, "vacuum_padding raised %s: %s" % (type(e).__name__, str(e)[:120]))
+        return
+    if args != before:
+        V("vacuum_padding", "modifies-input", "vacuum_padding changed the dictionary it was given")
+        return
+    lists = [out["Sgate"]] + [out["loops"][i][g] for i in sorted(loops) for g in ("Rgate", "BSgate")]
+    T = len(lists[0])
+    if any(len(x) != T for x in lists):
+        V("vacuum_padding", "unequal-lengths", "padded lists have lengths %s" % [len(x) for x in lists])
+        return
+    # the user's values must appear unchanged and contiguously, loop i shifted by the arrival time at that loop
+    for name, orig, padded in [("Sgate", case["Sgate"], out["Sgate"])] + [("loop %d %s" % (i, g), loops[i][g], out["loops"][i][g])
+                                                                           for i in sorted(loops) for g in ("Rgate", "BSgate")]:
+        L = len(orig)
+        offs = [k for k in range(T - L + 1) if list(padded[k:k + L]) == list(orig) and not any(padded[:k]) and not any(padded[k + L:])]
+        if not offs:
+            V("vacuum_padding", "values-changed", "%s: %s is not the input %s between zeros" % (name, rnd(padded, 4), rnd(orig, 4)))
+            return
+    crop = int(out["crop"])
+    n = sum(delays)
+    cmds = [{"op": "Sgate", "p": [{"par": 0}, 0.0], "m": [n]}]
+    arrays = [list(map(float, out["Sgate"]))]
+    a = n
+    for i, d in enumerate(delays):
+        b = a - d
+        arrays += [list(map(float, out["loops"][i]["Rgate"])), list(map(float, out["loops"][i]["BSgate"]))]
+        cmds.append({"op": "Rgate", "p": [{"par": 1 + 2 * i}], "m": [a]})
+        cmds.append({"op": "BSgate", "p": [{"par": 2 + 2 * i}, float(np.pi / 2)], "m": [b, a]})
+        a = b
+    cmds.append({"op": "MeasureHomodyne", "p": [0.0], "m": [0]})
+    tcase = {"N": [n + 1], "arrays": arrays, "cmds": cmds, "shots": 1}
+    ref = ExplicitLoop(tcase, condition=False).run()
+    g = ref.g
+    nbar = [g.mean_photon(ref.offset[0] + t) for t in range(T)]
+    rep.monitor("padding:vacuum-before-crop")
+    lead = [t for t in range(min(crop, T)) if nbar[t] > 1e-12]
+    if lead or crop > T:
+        V("vacuum_padding", "crop-too-large", "crop = %d, but the pulses %s that reach the detector before it carry light (mean photon "
+          "numbers %s)" % (crop, lead, np.round([nbar[t] for t in lead], 6).tolist()))
+        return
+    # (not judged: whether pulse `crop` itself carries light - zeros in the middle of a beamsplitter list, or a later loop that
+    # holds the first pulse back, can delay the first light further; and how much light is still inside a loop when the lists
+    # end depends on the user's last beamsplitter values.  Both are counted.)
+    if crop < T and case["Sgate"][0] != 0:
+        rep.observe("padding.first-light-%s" % ("at-crop" if nbar[crop] > 1e-12 else "after-crop"))
+    injected = float(sum(np.sinh(x) ** 2 for x in case["Sgate"]))
+    rep.observe("padding.light-left-in-loops-at-the-end" if abs(injected - float(sum(nbar))) > 1e-9 * (1 + injected) else "padding.loops-empty-at-the-end")
+    # the program's own crop computation must agree
+    prog = build(env, tcase)
+    rep.monitor("padding:get_crop_value-agrees")
+    try:
+        c2 = int(prog.get_crop_value())
+        d2 = [int(x) for x in prog.get_delays()]
+    except Exception as e:
+        V("TDMProgram.get_crop_value", "exception:" + type(e).__name__, "%s: %s" % (type(e).__name__, str(e)[:120]))
+        return
+    if d2 != list(delays):
+        V("TDMProgram.get_delays", "wrong-delays", "get_delays() = %s for loops with delays %s" % (d2, delays))
+    elif c2 != crop:
+        V("TDMProgram.get_crop_value", "disagrees-with-vacuum_padding", "get_crop_value() = %d, vacuum_padding reported crop = %d (delays %s)" % (
+            c2, crop, delays))
+
+
 def plan(tier, seed, scale=1.0):
     n = int((200 if tier == "quick" else 12000) * scale)
     return [{"n": n, "timeout": 6000} for _ in range(16)]
@@ -340,7 +448,14 @@ def plan(tier, seed, scale=1.0):
 def run_shard(shard, rep):
     env = load()
     rng = np.random.default_rng([shard["seed"], shard["id"], 13])
-    for _ in range(shard["n"]):
+    for i in range(shard["n"]):
+        if i % 8 == 7:
+            case = gen_padding_case(rng)
+            try:
+                run_padding_case(case, rep, env)
+            except Exception as e:
+                rep.error("run_padding_case", e)
+            continue
         case = gen_case(rng)
         case["hseed"] = int(rng.integers(2 ** 31))
         try:
@@ -350,4 +465,6 @@ def run_shard(shard, rep):
 
 
 def replay(case, rep):
+    if case.get("mode") == "padding":
+        return run_padding_case(case, rep, load())
     run_case(case, rep, load())
